@@ -182,6 +182,10 @@ func (s *Stream) close(status int32) error {
 	atomic.StoreInt32(&s.status, status)
 	verifPoint("close.marked", s)
 
+	// 已关闭的流不能再被查到: whoever closes the stream (administrative delete,
+	// idle close) also takes it out of the registry
+	deregister(s)
+
 	// 关闭 hls
 	if s.tsMuxer != nil {
 		s.tsMuxer.Close()
